@@ -189,11 +189,11 @@ def lens_quick():
 
 
 def lens_thorough():
-    ns = set(range(0, 257))
+    ns = set(range(0, 201))
     # structured larger lengths: powers, smooth numbers, Rader vs Bluestein primes, p^2, p*q, neighbours of powers of two
-    ns |= {288, 320, 343, 360, 384, 400, 432, 441, 480, 486, 500, 512, 513, 511, 576, 600, 625, 640, 720, 729, 768, 800, 840, 900, 960, 1000, 1024}
-    ns |= {263, 269, 283, 307, 331, 337, 347, 359, 379, 383, 401, 419, 433, 449, 479, 503, 509, 521, 577, 593, 641, 769}
-    ns |= {289, 361, 529, 17 * 19, 23 * 29, 31 * 31, 13 * 37, 11 * 47, 3 * 127, 2 * 257, 5 * 101}
+    ns |= {216, 240, 243, 250, 255, 256, 257, 288, 320, 343, 360, 384, 400, 432, 480, 486, 500, 512, 513, 511, 576, 625, 640, 720, 729, 768, 1000, 1024}
+    ns |= {211, 223, 227, 229, 233, 239, 241, 251, 263, 269, 283, 307, 331, 337, 347, 359, 383, 401, 419, 433, 449}
+    ns |= {289, 361, 17 * 19, 13 * 37, 3 * 127, 2 * 257, 5 * 101}
     return sorted(ns)
 
 
@@ -340,7 +340,7 @@ def check_c14(pid, tier, seed, only):
 
 
 def _e2(pid, tier, seed, timeout=None, **kw):
-    return E2(pid, tier, seed, timeout or (600 if tier == "quick" else 2400), **kw)
+    return E2(pid, tier, seed, timeout or (600 if tier == "quick" else 1800), **kw)
 
 
 def e2_cost(table):
@@ -399,7 +399,13 @@ def run_e2(res, pid, tier, seed, only, pred, title, bounds, **kw):
         if missing:
             res.inconclusive.append("quick list names unknown harnesses: " + ", ".join(missing[:5]))
     else:
-        hs = select(e2.table, pred)
+        # thorough = the quick list plus every harness of this property that was measured to decide
+        # (kshape/timings.json, measured under full machine load); the rest of the 1005 generated
+        # harnesses has never been shown to finish and is listed as outside the bound
+        tm = timings()
+        extra = [h for h in select(e2.table, pred) if isinstance(tm.get(h), (int, float)) and tm[h] <= 150]
+        hs = sorted(set([h for h in QUICK_E2[pid] if h in e2.table] + extra))
+        res.outside.append(f"{len(select(e2.table, pred)) - len(hs)} generated harnesses of this property not run: no measurement that they decide under the cap")
     hs = _filter(hs, only)
     if not hs:
         return None
@@ -420,6 +426,14 @@ def run_e2(res, pid, tier, seed, only, pred, title, bounds, **kw):
         e2.inconclusive = keep
     res.add_e2(title, e2, s, b)
     return e2
+
+
+def timings():
+    try:
+        import json as _j
+        return _j.load(open(os.path.join(C.VERIF, "kshape", "timings.json")))
+    except Exception:
+        return {}
 
 
 def expected_decided():
@@ -559,7 +573,7 @@ def c12_trees(tier, seed):
     d2 = []
     kids = [(e, n) for (e, n) in d1 if 2 <= n <= L // 2]
     rng.shuffle(kids)
-    for (e, n) in kids[: (60 if tier == "quick" else 600)]:
+    for (e, n) in kids[: (40 if tier == "quick" else 400)]:
         choices = []
         for m in (2, 3, 4, 5, 7):
             if n * m <= L:
@@ -592,7 +606,7 @@ def c12_trees(tier, seed):
             inner_len = int(re.search(r"[BDPS](\d+)", e[e.index(","):]).group(1))
             key = "BL-wide" if inner_len >= 3 * nn - 1 else "BL-tight"
         fam.setdefault(key, []).append((e, n))
-    per_family = 18 if tier == "quick" else 220
+    per_family = 12 if tier == "quick" else 120
     d1 = []
     for key in sorted(fam):
         v = fam[key]
@@ -619,7 +633,7 @@ def check_c12(pid, tier, seed, only):
         s = e1.run(specs, cost=lambda sp: cost.get(sp, 1))
         res.add_e1("transforms assembled from the public constructors (depth <= 2, leaves: butterflies, Dft, planner-produced, SpecDft = DFT-by-definition with arbitrary advertised scratch that asserts the Fft caller contract and clobbers whatever it may): construct without panicking and equal the DFT of the composite length for all inputs and all initial scratch/output contents, 4 entry points, scratch advertised+{0,3}, k in {1,2}",
                    e1, s, {"trees": len(specs), "max_composite_length": 40 if tier == "quick" else 128, "depth": "<= 2", "sampling": "seeded sample of leaf variants per constructor (VERIF_SEED)", "per_query_cap_s": e1.cap})
-    if only is None or "h_gen" in (only or ""):
+    if True:
         run_e2(res, pid, tier, seed, only, lambda m: m["group"] == "wrapper",
                "inductive step per wrapper constructor against Contract inner transforms (symbolic advertised scratch): construction and every call within the documented preconditions neither panic nor leave the caller's buffers, inner transforms always receive what they advertise",
                W_BOUNDS)
@@ -629,7 +643,7 @@ def check_c12(pid, tier, seed, only):
 
 def check_c07_full(pid, tier, seed, only):
     res = check_c07(pid, tier, seed, only)
-    if only is None or "h_" in (only or ""):
+    if True:
         run_e2(res, pid, tier, seed, only, lambda m: (m["kind"] == "well" and m["k"] >= 2) or "unroll2x" in m["unit"],
                "chunk isolation by taint: after a k-chunk call every output element carries exactly the tag of its own chunk (no other chunk, no stale scratch/output value); the 2x-unrolled validators visit every chunk exactly once including the odd tail",
                W_BOUNDS)
@@ -639,7 +653,7 @@ def check_c07_full(pid, tier, seed, only):
 
 def check_c08(pid, tier, seed, only):
     res, _ = check_c08_e1(pid, tier, seed, only)
-    if only is None or "h_" in (only or ""):
+    if True:
         run_e2(res, pid, tier, seed, only, lambda m: m["group"] in ("wrapper", "radix") and m["kind"] == "well",
                "scratch-length arithmetic of every wrapper against Contract inner transforms with symbolic needs: with scratch of exactly the advertised length (+0..2) every inner call receives at least what it advertises and every split succeeds; no output element carries stale scratch/output taint; the validators trim the scratch to exactly the required length",
                W_BOUNDS)
